@@ -276,7 +276,7 @@ package backend
 //@   requires wf_backend(b)
 //@   modifies inferred:(*backend).getCompactBorders
 //@   ensures [a-border-pair-for-the-prefix-and-for-every-skipped-prefix] len(result) == 2*(1+len(b.config.SkippedPrefixes))
-//@   loop 0 invariant [two-borders-per-prefix-so-far] len(compactBorders) == 2*(rangeindex+1) && len(keyPrefixes) == 1+len(b.config.SkippedPrefixes) && -1 <= rangeindex && rangeindex < len(keyPrefixes)
+//@   loop 0 invariant [two-borders-per-prefix-so-far] len(compactBorders) == 2*iter && len(keyPrefixes) == 1+len(b.config.SkippedPrefixes) && 0 <= iter && iter <= len(keyPrefixes)
 
 //@ func (*backend).Compact(ctx, revision) (resp, err)
 //@   props C08 C09 C07
@@ -301,7 +301,7 @@ package backend
 // every border the engine reports is advertised, in order, and the range's end closes the list: pieces
 // k_i .. k_i+1 streamed one after the other cover the whole range
 //@   ensures [every-border-is-advertised] err == nil ==> resp != nil && resp.PartitionNum == len(gp_parts) && len(resp.PartitionKeys) == ite(len(gp_parts) == 0, 0, len(gp_parts)+1)
-//@   loop 0 invariant [one-key-per-partition-so-far-and-the-end-after-the-last] resp != nil && resp.PartitionNum == len(partitions) && -1 <= rangeindex && rangeindex < len(partitions) && len(resp.PartitionKeys) == rangeindex+1+ite(rangeindex >= 0 && rangeindex == len(partitions)-1, 1, 0)
+//@   loop 0 invariant [one-key-per-partition-so-far-and-the-end-after-the-last] resp != nil && resp.PartitionNum == len(partitions) && 0 <= iter && iter <= len(partitions) && len(resp.PartitionKeys) == iter+ite(iter >= 1 && iter == len(partitions), 1, 0)
 //@   ensures [advertised-inner-borders-are-index-records] err == nil ==> forall(i, 1 <= i && i < len(resp.PartitionKeys)-1, is_internal_key(resp.PartitionKeys[i]) ==> key_rev(resp.PartitionKeys[i]) == 0)
 
 // ---- C05: the event cache (ring buffer) ----
@@ -521,7 +521,7 @@ package backend
 //@   ensures [no-more-than-given] len(result) <= len(events)
 //@   loop 0 invariant [only-events-under-the-prefix] forall(k, 0 <= k && k < len(filteredEventList), filteredEventList[k] != nil && filteredEventList[k].Kv != nil && under_prefix(filteredEventList[k].Kv.Key, prefix))
 //@   loop 0 invariant [events-are-objects] forall(i, 0 <= i && i < len(events), events[i] != nil && events[i].Kv != nil) && filteredEventList.obj != events.obj
-//@   loop 0 invariant [no-more-than-seen] len(filteredEventList) <= rangeindex+1 && len(filteredEventList) <= cap(filteredEventList) && cap(filteredEventList) == len(events) && rangeindex >= -1 && rangeindex < len(events)
+//@   loop 0 invariant [no-more-than-seen] len(filteredEventList) <= iter && len(filteredEventList) <= cap(filteredEventList) && cap(filteredEventList) == len(events) && 0 <= iter && iter <= len(events)
 //@   loop 0 step_lemma [kept-exactly-when-under-the-prefix] len(filteredEventList) == head(len(filteredEventList)) + ite(has_prefix(event.Kv.Key, prefix), 1, 0)
 //@   loop 0 step_lemma [the-kept-event-is-the-current-one] has_prefix(event.Kv.Key, prefix) ==> filteredEventList[len(filteredEventList)-1] == event
 //@   loop 0 step_lemma [what-was-kept-stays] forall(k, 0 <= k && k < head(len(filteredEventList)), filteredEventList[k] == head(filteredEventList[k]))
@@ -566,10 +566,11 @@ package backend
 
 // C09: a write whose outcome is unknown is handed to the repair queue before its revision is
 // committed -- Compact clamps below the least queued revision, so it must be queued first
+// (C06 rests on the same step: an applied write that is never queued never gets its event)
 //@ func (*backend).SetCurrentRevision(revision)
-//@   props C09
+//@   props C09 C06
 //@   requires b != nil && b.tso != nil
-//@   requires@C09 [unresolved-writes-are-queued-before-their-revision-is-committed] seq_src == nil || asref(seq_src, "*common.WatchEvent").Revision != revision || asref(seq_src, "*common.WatchEvent").Valid || !err_is(asref(seq_src, "*common.WatchEvent").Err, storage.ErrUncertainResult) || appended == seq_src
+//@   requires@C09,C06 [unresolved-writes-are-queued-before-their-revision-is-committed] seq_src == nil || asref(seq_src, "*common.WatchEvent").Revision != revision || asref(seq_src, "*common.WatchEvent").Valid || !err_is(asref(seq_src, "*common.WatchEvent").Err, storage.ErrUncertainResult) || appended == seq_src
 //@   modifies inferred:(*backend).SetCurrentRevision
 
 //@ func (*backend).collectStorageWriteEvents()
